@@ -247,6 +247,99 @@ theorem C07_budget_step (s : St) (op : Op) :
     | none => simp [step, hobj]
     | some o => cases hl : hasLease o <;> simp [step, hobj, hl]
 
+/-- **The abstract specification, step by step.**  The whole behaviour is that of one counter, the frontier: it never
+moves backwards; a number handed out is the frontier at that moment and moves it past itself; and whatever else an
+operation adds to the frontier (numbers skipped = wasted) is covered by the interval of an object abandoned by that very
+operation (`budget` grows by exactly that, `C07_budget_step`) — so `Next`, `Release`, store errors and exhaustion waste
+nothing, and a crash or an unreleased restart wastes at most the one interval. -/
+theorem C07_frontier_step (s : St) (h : Inv s) (op : Op) (hw : op.wf) :
+    frontier s ≤ frontier (step s op).1 ∧
+    frontier (step s op).1 + s.budget ≤ frontier s + (nums [(step s op).2]).length + (step s op).1.budget ∧
+    (∀ n, (step s op).2 = .num n → n = frontier s ∧ frontier s < frontier (step s op).1) := by
+  cases hobj : s.obj with
+  | none =>
+    cases op with
+    | new i => simp [step, abandon, hobj, frontier, hasLease, mark, nums]
+    | crash pt => simp [step, hobj, frontier, nums]
+    | failNext f => simp [step, hobj, frontier, nums]
+    | _ => simp [step, hobj, frontier, nums]
+  | some o =>
+    have hres := h.res_le o hobj
+    have hip := h.ipos o hobj
+    simp only [mark] at hres
+    cases hl : hasLease o with
+    | true =>
+      obtain ⟨_, h2, h3, _⟩ := h.lease o hobj hl
+      simp only [mark] at h2
+      have hl' : o.next < o.reserved := by simpa [hasLease] using hl
+      cases op with
+      | new i => simp [step, abandon, hobj, frontier, hasLease, mark, nums, hl']; omega
+      | next =>
+        simp [step, hobj, hl, frontier, hasLease, mark, nums, hl']
+        refine ⟨?_, ?_, ?_⟩ <;> split <;> omega
+      | release => simp [step, hobj, hl, frontier, hasLease, mark, nums, hl']
+      | crash pt =>
+        cases pt <;> simp [step, abandon, hobj, hl, frontier, hasLease, mark, nums, hl'] <;> omega
+      | failNext f =>
+        simp [step, hobj, hl, frontier, hasLease, mark, nums, hl']
+        refine ⟨?_, ?_, ?_⟩ <;> split <;> omega
+      | failRelease => simp [step, hobj, hl, frontier, hasLease, nums, hl']
+    | false =>
+      have hnl : ¬ o.next < o.reserved := by simpa [hasLease] using hl
+      have hle := lease_le (s.store.getD 0) o.interval
+      cases op with
+      | new i => simp [step, abandon, hobj, frontier, hasLease, mark, nums, hnl]
+      | next =>
+        by_cases hz : lease (s.store.getD 0) o.interval = 0
+        · have : ¬ s.store.getD 0 < o.reserved := by omega
+          simp [step, hobj, hl, hnl, hz, frontier, hasLease, mark, nums, this]
+        · simp [step, hobj, hl, hnl, hz, frontier, hasLease, mark, nums, update]
+          refine ⟨?_, ?_, ?_⟩ <;> split <;> omega
+      | release => simp [step, hobj, hl, hnl, frontier, nums]
+      | crash pt =>
+        cases pt
+        · simp [step, abandon, hobj, hl, hnl, frontier, mark, nums]
+        · simp [step, abandon, hobj, hl, hnl, frontier, mark, nums]
+        · by_cases hz : lease (s.store.getD 0) o.interval = 0
+          · have : ¬ s.store.getD 0 < o.reserved := by omega
+            simp [step, hobj, hl, hnl, hz, frontier, hasLease, mark, nums, this]
+          · simp [step, abandon, hobj, hl, hnl, hz, frontier, mark, nums]
+            omega
+        · simp [step, abandon, hobj, hl, hnl, frontier, mark, nums]
+      | failNext f =>
+        have : ¬ s.store.getD 0 < o.reserved := by omega
+        cases f <;> simp [step, hobj, hl, hnl, frontier, hasLease, mark, nums, this]
+      | failRelease => simp [step, hobj, hl, hnl, frontier, nums]
+
+/-- The stored bytes.  `be8` is `binary.BigEndian.PutUint64`, `unbe8` is `binary.BigEndian.Uint64`: every value the
+model stores (≤ `cap`, `C07_no_wrap`) is written as 8 bytes and read back unchanged — the byte string the harness
+compares after every request (`m=…`) determines the model's store cell and vice versa. -/
+theorem C07_mark_encoding_roundtrip (n : Nat) (hn : n ≤ cap) :
+    unbe8 (be8 n) = n ∧ (be8 n).length = 8 ∧ ∀ b ∈ be8 n, b < 256 := by
+  have hc : n < 18446744073709551616 := by unfold cap at hn; omega
+  refine ⟨?_, rfl, ?_⟩
+  · simp only [unbe8, be8, List.take, List.foldl]
+    omega
+  · intro b hb
+    simp only [be8, List.mem_cons, List.not_mem_nil, or_false] at hb
+    rcases hb with h | h | h | h | h | h | h | h <;> omega
+
+/-- An operation carried out by ANOTHER live object `o'` on the same store cell (a second process using the key at the
+same time); the tracked object is left alone.  Returns the new state, the other object and its answer. -/
+def stepOther (s : St) (o' : Obj) (op : Op) : St × Option Obj × Out :=
+  let r := step { s with obj := some o' } op
+  ({ r.1 with obj := s.obj }, r.1.obj, r.2)
+
+/-- **The assumption "one live object per key" is needed**: with two live objects on one key and no crash at all,
+`A.Next → 0`, `B.Next → 2`, `A.Release` (writes 1 back below B's lease), restart: `Next → 1`, `Next → 2` — the number 2
+is handed out twice. -/
+theorem C07_two_live_objects_witness :
+    let s1 := (step (step init (.new 2)).1 .next).1                  -- A: Next → 0, store 2
+    let b := stepOther s1 { interval := 2, next := 0, reserved := 0 } .next   -- B: Next → 2, store 4
+    let s3 := (step b.1 .release).1                                  -- A: Release, store 1
+    b.2.2 = .num 2 ∧ (run s3 [.new 2, .next, .next]).2 = [.ok, .num 1, .num 2] := by
+  decide
+
 /-- Witness that the unrepaired `Release` (which wrote `next` unconditionally) reused numbers:
 kept as a regression statement about the *model of the old code*. -/
 def oldRelease (s : St) : St :=
